@@ -26,7 +26,9 @@ CORR_CONFIGS = ["LS-additive", "LS-multiplicative", "DC-additive", "DC-multiplic
                 "QDM-relative-linear_interpolation-censor", "QDM-relative-linear_interpolation-nocensor-years",
                 "CDFt-additive-linear_interpolation-linear-nossr", "CDFt-multiplicative-linear_interpolation-linear-nossr",
                 "CDFt-no_shift-linear_interpolation-linear-nossr", "CDFt-additive-linear_interpolation-linear-nossr-years",
-                "CDFt-additive-step_function-inverted_cdf-nossr"]
+                "CDFt-additive-step_function-inverted_cdf-nossr",
+                # stochastic singularity removal (Props.C03.cdft_ssr_fixed_point*): `cdftSteps true` / `cdftWindowYearsSSR`
+                "CDFt-additive-linear_interpolation-linear-ssr", "CDFt-additive-linear_interpolation-linear-ssr-years"]
 
 
 def correspondence(rng, names, n_each, tier, res, special):
@@ -531,10 +533,19 @@ def run(tier, res, force_search=False):
         "scipy.stats.norm / gamma are assumed to satisfy LocScaleLaws (ppf(cdf(x)) = x, monotone); exercised by the oracle only",
         "the clip mask of parametric QuantileMapping is computed with the real distribution and the real window index sets (C07)",
     ]
+    res.notes.append(
+        "clauses decided by the oracle on the real code only (the value-level model cannot exhibit them): input dtype conversion in "
+        "Debiaser._check_inputs_and_convert_if_possible (the model's values are rationals: there is no dtype; C14 models the check sequence), the "
+        "process pool of apply(parallel=True) (chunking / scheduling; C05 models the write-back order), the time-axis encoding (datetime64 / date / "
+        "cftime-like objects -> day of year, month, year is trusted calendar arithmetic: the model receives integer codes; probes.check_calendar "
+        "compares them with python's datetime on every case), float rounding (tolerances), and a second, different fit of an iteratively "
+        "fitted family for equal samples (Family.fit is a function in the model; qm_param_fixed_point_general states exactly that)")
     res.assumptions = [
         "exact rational arithmetic in the theorems; 'up to rounding' is the oracle tolerance 1e-8*max(1,|values|) and the 1e-9 tolerance of the correspondence",
         "tie-free obs and cm_future for CDFt (continuous draws); parametric QM: only values whose cdf lies in [cdf_threshold, 1-cdf_threshold] (NoClip)",
         "QDM relative: positive data at or above the censoring threshold; multiplicative settings: mean(obs) != 0",
+        "every calibration window is non-empty (np.mean([]) / a fit of an empty sample is NaN / raises in the code; the theorems carry obs != [])",
+        "CDFt with SSR: strictly positive series (no exact zeros), any random draws; gamma / beta families: ppf(cdf(x)) = x on the support is assumed",
         "cm_hist has the dates of obs (it equals obs value for value); calibration series cover whole years in running-window mode",
     ]
 
